@@ -255,6 +255,7 @@ package allocation
 //@   ensures [C15:relay-closed] old(!closed(a.closed)) && (a.relayPacketConn != nil || a.relayListener != nil) ==> socketsClosed >= old(socketsClosed) + 1
 //@   ensures [C15:no-new-state] forall k :: haskey(a.permissions, k) ==> old(haskey(a.permissions, k))
 //@   ensures [C15:stays-closed] forall ch :: old(closed(ch)) ==> closed(ch)
+//@   ensures base(a.channelBindings) == old(base(a.channelBindings)) || fresh(base(a.channelBindings)) || len(a.channelBindings) == 0
 //@   assigns channels, timers, socketsClosed, entries(a.tcpConnections), entries(a.permissions), a.channelBindings, mem(a.channelBindings)
 //@   loop 0 invariant closeReady(a) && closed(a.closed) && !armed(a.lifetimeTimer) && socketsClosed >= old(socketsClosed)
 //@   loop 0 invariant forall k :: seenkey(k) ==> !haskey(a.tcpConnections, k)
@@ -409,12 +410,15 @@ package allocation
 //@   lockonly
 
 //@      // ---- C15: closing the manager closes every allocation, whatever errors individual Close calls return.
-//@      // Distinct allocations own distinct tables (each is created with fresh maps and an empty binding slice).
-//@ spec func mgrCloseReady(m *Manager) bool = m != nil && (forall k :: haskey(m.allocations, k) ==> valat(m.allocations, k) != nil && closeReady(valat(m.allocations, k)))
-//@ spec func mgrSep(m *Manager) bool = forall j, k :: haskey(m.allocations, j) && haskey(m.allocations, k) && j != k ==> valat(m.allocations, j) != valat(m.allocations, k) && valat(m.allocations, j).permissions != valat(m.allocations, k).permissions && valat(m.allocations, j).tcpConnections != valat(m.allocations, k).tcpConnections && (len(valat(m.allocations, j).channelBindings) == 0 || len(valat(m.allocations, k).channelBindings) == 0 || base(valat(m.allocations, j).channelBindings) != base(valat(m.allocations, k).channelBindings))
+//@      // `assume-callee-pre`: that every stored allocation satisfies Close's precondition (closeReady) while the others
+//@      // are being closed needs a separation invariant between allocations whose proof obligations (about 1 MB each)
+//@      // no installed solver decides; it is assumed here and listed as unchecked. What IS verified: the loop visits every
+//@      // entry, calls Close on it, never leaves early, nothing un-closes an allocation, and the lock is released.
 //@ func (*Manager).Close
-//@   requires mgrCloseReady(m) && mgrSep(m) && !held(m.lock) && !rheld(m.lock)
+//@   assume-callee-pre
+//@   requires m != nil && allocsNonNil(m) && !held(m.lock) && !rheld(m.lock)
 //@   ensures [C15:closes-every-allocation] forall k :: haskey(m.allocations, k) ==> closed(valat(m.allocations, k).closed)
-//@   loop 0 invariant held(m.lock) && m != nil && mgrSep(m) && (forall k :: haskey(m.allocations, k) ==> valat(m.allocations, k) != nil) && (forall k :: haskey(m.allocations, k) && !seenkey(k) ==> closeReady(valat(m.allocations, k)))
+//@   at-call (*Allocation).Close assert [C15:closes-every-allocation] held(m.lock)
+//@   loop 0 invariant held(m.lock) && m != nil && allocsNonNil(m)
 //@   loop 0 invariant forall k :: seenkey(k) && haskey(m.allocations, k) ==> closed(valat(m.allocations, k).closed)
 //@   loop 0 invariant forall k :: haskey(m.allocations, k) == old(haskey(m.allocations, k)) && valat(m.allocations, k) == old(valat(m.allocations, k))
